@@ -164,7 +164,7 @@ def run(chk):
         return False
     it2 = Interp(repo, hooks={'index_scalar': idx, 'stmt': stmt})
     from .common import ArrayTwin
-    twin = ArrayTwin(chk, 'R05.8', it2, d)
+    twin = ArrayTwin(chk, 'R05.8', it2, d, prime=False)        # the harness recognises the radius stand-in by identity
     e = X.atom('e', 'pos'); n = X.atom('n', 'pos'); a = X.atom('a', 'pos'); M = X.atom('M', 'pos'); H = X.atom('H_mu'); muc = X.atom('mu', 'complex')
     G = X.atom('const_G', 'pos'); pi = X.atom('pi', 'pos')
     for l in (2, 3):
